@@ -11,10 +11,12 @@ function does not have the expected shape the translator raises `Unrecognised` (
 generated table is *data*: whether it still agrees with the documented levels is decided by Coq
 (theorem levels_refine_spec in Proofs/FormulaP.v), not here.
 """
+import os as _os
+_REPO_ROOT = _os.environ.get("MECH_REPO", "/repo")   # testing aid (seeded runs); registered commands never set it
 import os, re, sys
 
-SYNTAX = "/repo/src/syntax/src/expressions.rs"
-INTERP = "/repo/src/interpreter/src/expressions.rs"
+SYNTAX = (_REPO_ROOT + "/src/syntax/src/expressions.rs")
+INTERP = (_REPO_ROOT + "/src/interpreter/src/expressions.rs")
 ROOT = os.path.dirname(os.path.dirname(os.path.abspath(__file__)))
 OUT = os.path.join(ROOT, "coq", "theories", "Gen", "Levels.v")
 NLEVELS_MAX = 12
